@@ -368,8 +368,10 @@ class Polygon(Shape2D):
         # axis theorem can be applied in the reverse direction (rotating about
         # the origin before translating to the actual centroid).
         original_center = self.center.copy()
-        original_vertices = self._vertices.copy()
+        # Work on a copy so that arrays handed out earlier via ``vertices`` are never moved.
+        original_vertices = self._vertices
         original_normal = self._normal.copy()
+        self._vertices = original_vertices.copy()
 
         self.center = (0, 0, 0)
         mat, _ = rowan.mapping.kabsch(
